@@ -634,6 +634,8 @@ class Res:
     def __mod__(self, m):
         if isinstance(m, int) and m == self.ring.modulus:
             return self
+        if isinstance(m, int) and m == 2 and getattr(self.ring, "parity_hook", None) is not None:
+            return self.ring.parity_hook(self)      # parity of the canonical representative: not an algebraic notion
         raise Unsupported("reduction of a residue modulo %r (ring modulus %r)" % (m, self.ring.modulus))
 
     def __pow__(self, e, m=None):
